@@ -104,6 +104,8 @@ let do_spec script =
   let ic = open_in script in
   let st = ref (sinit false) in
   let lineno = ref 0 in
+  (* entries removed so far, by (directory, name) as written in the script: what an undelete brings back *)
+  let trash : (string * string, snode) Hashtbl.t = Hashtbl.create 16 in
   (try
      while true do
        let line = input_line ic in
@@ -125,7 +127,13 @@ let do_spec script =
            | "read" -> Some (ORead (z_of_int (int_of_string a.(1)), z_of_int (int_of_string a.(2))))
            | "seek" -> Some (OSeek (z_of_int (int_of_string a.(1)), z_of_int (int_of_string a.(2))))
            | "trunc" -> Some (OTrunc (z_of_int (int_of_string a.(1)), z_of_int (int_of_string a.(2))))
-           | "rm" -> Some (ORm (path_of a.(1), name_of a.(2)))
+           | "rm" ->
+             (match lookup_node !st (path_of a.(1)) (name_of a.(2)) with
+              | Some nd -> Hashtbl.replace trash (a.(1), a.(2)) nd
+              | None -> ());
+             Some (ORm (path_of a.(1), name_of a.(2)))
+           (* undel <dir> L <namehex> : the entry removed from <dir> under that name *)
+           | "undel" when Array.length a > 3 && Hashtbl.mem trash (a.(1), a.(3)) -> Some (ORestore (path_of a.(1), Hashtbl.find trash (a.(1), a.(3))))
            | "mv" -> Some (OMv (path_of a.(1), name_of a.(2), path_of a.(3), name_of a.(4)))
            | "comment" -> Some (OComment (path_of a.(1), name_of a.(2), name_of a.(3)))
            | "prot" -> Some (OProt (path_of a.(1), name_of a.(2), z_of_int (int_of_string a.(3))))
@@ -236,8 +244,112 @@ let do_cache first =
      done
    with End_of_file -> ())
 
+(* ---------------- file handle state machine (Model/FileIO.v) ---------------- *)
+(* adfm fileio <bs> <ofs 0|1> : reads one call per line from stdin
+     new <key> <r> <w> | open <key> <r> <w> | write <seed> <len> <ans>.. | read <len> | seek <pos> | trunc <size> <ans>.. | flush | close
+     bad <n> | good <n>                    (device read failures of block n from now on / no longer)
+   <ans> = a1:<n> (adfGet1FreeBlock) | a2:<e>:<n> (adfGetFreeBlocks 2) | fail ; after the listed answers the allocator refuses.
+   After each call prints "r <result>", "S <handle fields>" (the fields of the harness command hstate) and "B <blocks>" (header
+   block and every block number that appeared in an answer so far, as the model's volume holds them). *)
+let do_fileio bs ofs =
+  let zbs = z_of_int bs in
+  let badset : (int, unit) Hashtbl.t = Hashtbl.create 16 in
+  let bad (n : z) : bool = Hashtbl.mem badset (int_of_z n) in
+  let disk : disk ref = ref (fun _ -> BOther) in
+  let st : hstate option ref = ref None in
+  let key = ref 0 in
+  let tracked : int list ref = ref [] in
+  let track n = if n >= 0 && not (List.mem n !tracked) then tracked := !tracked @ [n] in
+  let fnvz (l : z list) = fnv32 (List.map (fun x -> (int_of_z x) land 0xFFFFFFFF) l) in
+  let fnvw (l : z list) = List.fold_left (fun h b -> ((h lxor ((int_of_z b) land 0xFFFFFFFF)) * 16777619) land 0xFFFFFFFF) 2166136261 l in
+  let parse_ans (toks : string list) : (z * z) option list =
+    List.map (fun t ->
+        match String.split_on_char ':' t with
+        | ["a1"; n] -> let n = int_of_string n in if n < 0 then None else (track n; Some (z_of_int n, Z0))
+        | ["a2"; e; n] -> let e = int_of_string e and n = int_of_string n in track e; track n; Some (z_of_int e, z_of_int n)
+        | _ -> None) toks in
+  let show () =
+    (match !st with
+     | None -> print_endline "S closed"
+     | Some s ->
+       let b = Buffer.create 256 in
+       Printf.bprintf b "S pos=%s pinx=%s pind=%s ndb=%s cur=%s chg=%d size=%s high=%s first=%s ext=%s dfnv=%08x htab=%08x"
+         (zs s.pos) (zs s.pinx) (zs s.pind) (zs s.ndb) (zs s.cur) (if s.chg then 1 else 0) (zs s.fh.h_size) (zs s.fh.h_high)
+         (zs s.fh.h_first) (zs s.fh.h_ext) (fnvz s.cdata.d_bytes) (fnvw s.fh.h_tab);
+       if ofs then Printf.bprintf b " dnext=%s dsize=%s dseq=%s dkey=%s" (zs s.cdata.d_next) (zs s.cdata.d_size) (zs s.cdata.d_seq) (zs s.cdata.d_key);
+       (match s.cext with
+        | None -> Buffer.add_string b " xkey=-1"
+        | Some x -> Printf.bprintf b " xkey=%s xpar=%s xhigh=%s xext=%s xtab=%08x" (zs x.x_key) (zs x.x_parent) (zs x.x_high) (zs x.x_ext) (fnvw x.x_tab));
+       print_endline (Buffer.contents b));
+    let d = match !st with Some s -> s.dk | None -> !disk in
+    let one n =
+      match d (z_of_int n) with
+      | BData x -> if ofs then Printf.sprintf "%d:D:%s:%s:%s:%s:%08x" n (zs x.d_seq) (zs x.d_size) (zs x.d_next) (zs x.d_key) (fnvz x.d_bytes)
+        else Printf.sprintf "%d:D:%08x" n (fnvz x.d_bytes)
+      | BExt x -> Printf.sprintf "%d:X:%s:%s:%s:%s:%08x" n (zs x.x_key) (zs x.x_parent) (zs x.x_high) (zs x.x_ext) (fnvw x.x_tab)
+      | BHdr h -> Printf.sprintf "%d:H:%s:%s:%s:%s:%s:%08x" n (zs h.h_key) (zs h.h_size) (zs h.h_first) (zs h.h_high) (zs h.h_ext) (fnvw h.h_tab)
+      | BOther -> Printf.sprintf "%d:O" n in
+    print_endline ("B " ^ String.concat " " (List.map one (!key :: !tracked))) in
+  let b01s s = s <> "0" in
+  (try
+     while true do
+       let line = input_line stdin in
+       (match List.filter (fun s -> s <> "") (String.split_on_char ' ' line) with
+        | ["bad"; n] -> Hashtbl.replace badset (int_of_string n) ()
+        | ["good"; n] -> Hashtbl.remove badset (int_of_string n)
+        | ["new"; k; r; w] ->
+          key := int_of_string k;
+          let s = fio_new zbs !disk (z_of_int !key) (b01s r) (b01s w) in
+          st := Some s; disk := s.dk; print_endline "r ok"; show ()
+        | ["open"; k; r; w] ->
+          key := int_of_string k;
+          let (ok, s) = fio_open zbs ofs bad !disk (z_of_int !key) (b01s r) (b01s w) in
+          if ok then (st := Some s; disk := s.dk; print_endline "r ok") else (st := None; print_endline "r err"); show ()
+        | "write" :: seed :: len :: ans ->
+          (match !st with
+           | None -> print_endline "r nohandle"
+           | Some s ->
+             let data = zlist_of_ints (xs_bytes (int_of_string seed) (int_of_string len)) in
+             let ((s', w), _) = fio_write zbs ofs bad s data (parse_ans ans) in
+             st := Some s'; disk := s'.dk;
+             Printf.printf "r n=%s pos=%s size=%s eof=%d\n" (zs w) (zs s'.pos) (zs s'.fh.h_size) (if at_eof s' then 1 else 0)); show ()
+        | ["read"; len] ->
+          (match !st with
+           | None -> print_endline "r nohandle"
+           | Some s ->
+             let (s', bytes) = fio_read zbs ofs bad s (z_of_int (int_of_string len)) in
+             st := Some s'; disk := s'.dk;
+             Printf.printf "r n=%d fnv=%08x pos=%s size=%s eof=%d\n" (List.length bytes) (fnvz bytes) (zs s'.pos) (zs s'.fh.h_size) (if at_eof s' then 1 else 0)); show ()
+        | ["seek"; p] ->
+          (match !st with
+           | None -> print_endline "r nohandle"
+           | Some s ->
+             let (ok, s') = fio_seek zbs ofs bad s (z_of_int (int_of_string p)) in
+             st := Some s'; disk := s'.dk;
+             Printf.printf "r %s pos=%s size=%s eof=%d\n" (if ok then "ok" else "err") (zs s'.pos) (zs s'.fh.h_size) (if at_eof s' then 1 else 0)); show ()
+        | "trunc" :: size :: ans ->
+          (match !st with
+           | None -> print_endline "r nohandle"
+           | Some s ->
+             let (((ok, s'), freed), _) = fio_truncate zbs ofs bad s (z_of_int (int_of_string size)) (parse_ans ans) in
+             st := Some s'; disk := s'.dk;
+             Printf.printf "r %s pos=%s size=%s eof=%d F %s\n" (if ok then "ok" else "err") (zs s'.pos) (zs s'.fh.h_size) (if at_eof s' then 1 else 0)
+               (String.concat "," (List.map zs freed))); show ()
+        | ["flush"] ->
+          (match !st with
+           | None -> print_endline "r nohandle"
+           | Some s -> let s' = fio_flush zbs ofs s in st := Some s'; disk := s'.dk; print_endline "r ok"); show ()
+        | ["close"] ->
+          (match !st with
+           | None -> print_endline "r nohandle"
+           | Some s -> disk := fio_close zbs ofs s; st := None; print_endline "r ok"); show ()
+        | _ -> ())
+     done
+   with End_of_file -> ())
+
 let () =
   match Array.to_list Sys.argv with
+  | [_; "fileio"; bs; ofs] -> do_fileio (int_of_string bs) (ofs <> "0")
   | [_; "cache"; first] -> do_cache (int_of_string first)
   | [_; "filemap"] -> do_filemap ()
   | [_; "chain"; intl] -> do_chain (intl <> "0")
